@@ -31,4 +31,33 @@ ASSUMPTIONS = [
     "of an unregistered PID (a DeadLetterEvent carrying the pill) is covered by C07",
 ]
 
-PARTS = [EC.Undeliv09()]
+from ..driver import Part
+from .. import common as C
+
+COQ_FILES = COQ_FILES + ["Corner09Exec.v"]
+
+
+class Corners(Part):
+    """unusual inputs outside the modelled domain: nil message, event stream gone, response mailbox
+    or the event stream itself subscribed"""
+    name = "corners"
+    family = "corner09"
+    exec_module = "Corner09Exec"
+    one_per_process = True
+    KINDS = {"nilmsg": 1, "events_gone": 2, "sub_response": 3, "sub_self": 4}
+    OUT = {"ok": 0, "panic": 1, "diverged": 2, "blocked": 3}
+    branch_names = {1: "nil_message", 2: "event_stream_gone", 3: "response_mailbox_subscribed", 4: "event_stream_subscribed_to_itself"}
+    crash_obs = {"outcome": "panic", "dead": 0, "events": 0, "note": "the harness process died"}
+
+    def generate(self, rng, tier):
+        cs = [{"kind": "nilmsg", "k": 0}, {"kind": "events_gone", "k": 0}, {"kind": "sub_response", "k": 3},
+              {"kind": "sub_response", "k": 7}, {"kind": "sub_self", "k": 2}]
+        return [{"input": c, "class": c["kind"]} for c in cs]
+
+    def to_coq(self, inp, obs):
+        return "{| c_kind := %s; c_k := %s; c_outcome := %s; c_dead := %s; c_events := %s |}" % (
+            C.cnat(self.KINDS[inp["kind"]]), C.cnat(inp["k"]), C.cnat(self.OUT.get(obs["outcome"], 1)),
+            C.cnat(min(obs.get("dead", 0), 4999)), C.cnat(min(obs.get("events", 0), 4999)))
+
+
+PARTS = [EC.Undeliv09(), Corners()]
